@@ -53,11 +53,25 @@ Section Lift.
   Variable mw : list word.
 
   Theorem rt_int lo hi an z ws : (Z.abs z < B4300)%Z ->
-    ty_as_words (TyInt lo hi an) opt mw (VNum (Conv.NInt z)) = Ok ws -> zbounds lo hi z ->
+    ty_as_words (TyInt lo hi an) opt mw (VNum (Conv.NInt z)) = Ok ws ->
     ty_from_words pe ex (TyInt lo hi an) opt ws = Ok (VNum (Conv.NInt z)).
   Proof.
-    intros Hz H Bd. cbn [ty_as_words cty_of to_conv] in H. cbn [ty_from_words cty_of].
-    rewrite (int_roundtrip pe no_fmt _ z ws Hz H (zbounds_in_bounds _ _ _ Bd)). reflexivity.
+    intros Hz H. cbn [ty_as_words cty_of to_conv] in H. cbn [ty_from_words cty_of].
+    rewrite (int_roundtrip pe no_fmt _ z ws Hz H). reflexivity.
+  Qed.
+  (* the scalar converter writes a number only if it lies within value_min / value_max *)
+  Theorem int_accepts_only_bounds lo hi an z ws :
+    ty_as_words (TyInt lo hi an) opt mw (VNum (Conv.NInt z)) = Ok ws -> zbounds lo hi z.
+  Proof.
+    intro H. cbn [ty_as_words cty_of to_conv] in H.
+    destruct (int_as_words_inv no_fmt _ z ws H) as [Hb _]. apply in_bounds_zbounds. exact Hb.
+  Qed.
+  (* and an in-bounds integer below the digit limit is accepted *)
+  Theorem int_accepts_in_bounds lo hi an z : zbounds lo hi z ->
+    ty_as_words (TyInt lo hi an) opt mw (VNum (Conv.NInt z)) = Ok [uw (if Conv.too_many_digits z then Conv.py_hex z else str_of_Z z)].
+  Proof.
+    intro Bd. cbn [ty_as_words cty_of to_conv Conv.as_words Conv.number_conv_as_words Conv.vmin Conv.vmax].
+    rewrite (check_value_ok true _ _ _ None (zbounds_in_bounds _ _ _ Bd)). reflexivity.
   Qed.
 
   (* values an ints parameter may hold: a list of integers, None and Auto *)
@@ -121,16 +135,10 @@ Section Lift.
   Theorem int_refuses_none lo hi : ty_as_words (TyInt lo hi false) opt mw VNone = UErr (s_ "CannotBeNone") [] 0.
   Proof. reflexivity. Qed.
 
-  (* the scalar converters never look at value_min / value_max when formatting *)
-  Theorem scalar_bounds_refuted :
-    exists lo hi z ws, ~ zbounds lo hi z /\ ty_as_words (TyInt lo hi true) opt mw (VNum (Conv.NInt z)) = Ok ws
-                       /\ exists k t l, ty_from_words pe ex (TyInt lo hi true) opt ws = UErr k t l.
-  Proof.
-    exists (Some 0%Z), (Some 3%Z), 99%Z, [uw (s_ "99")]. split; [|split].
-    - intros [_ H]. specialize (H 3%Z eq_refl). lia.
-    - vm_compute. reflexivity.
-    - eexists _, _, _. vm_compute. reflexivity.
-  Qed.
+  (* out of bounds: refused with BelowMin / AboveMax (the witness of the former defect) *)
+  Theorem scalar_bounds_refused :
+    ty_as_words (TyInt (Some 0%Z) (Some 3%Z) true) opt mw (VNum (Conv.NInt 99)) = UErr (s_ "AboveMax") [] 0.
+  Proof. vm_compute. reflexivity. Qed.
 
   Theorem single_none_element_refuted :
     exists ws, ty_as_words (TyInts None None None None true true) opt mw (VList [VNone]) = Ok ws
